@@ -412,4 +412,48 @@ pub fn run(r: &mut Runner) {
             }
         });
     }
+    {
+        // hypot over EVERY exponent of the stated range (a rescaling step may treat one binade differently): for each
+        // exponent of the larger leg, legs 0..3 binades apart, generic and Pythagorean mantissas, both orders
+        let es: Vec<i32> = (-400..=399).collect();
+        r.notes.push("hypot at every exponent -400..399 of the larger leg x leg-exponent offsets {0, 1, 2, 3, 30} x 4 mantissa pairs (3:4, generic Weyl) x low words x both orders".to_string());
+        r.par("hypot: every exponent", es.len(), (es.len() * 5 * 4 * 2) as u64, |c, l| {
+            let e = es[c];
+            let mut i = 0u64;
+            for d in [0, 1, 2, 3, 30] {
+                if e - d < -400 {
+                    continue;
+                }
+                for (fa, fb) in [(1.5, 1.0), (1.25, 1.5), (1.9375, 1.0625), (1.0 + 0.6180339887498949, 1.0 + 0.41421356237309515)] {
+                    let a = [fa * 2f64.powi(e), fa * 2f64.powi(e - 54) * 0.7];
+                    let b = [fb * 2f64.powi(e - d), -fb * 2f64.powi(e - d - 55) * 0.9];
+                    if !(dd_valid_fast(a[0], a[1]) && dd_valid_fast(b[0], b[1])) {
+                        continue;
+                    }
+                    for (x, y) in [(a, b), (b, a), ([a[0], 0.0], [b[0], 0.0])] {
+                        let v = judge_hypot(x, y, Some(l));
+                        rec.record(l, (11u64 << 55) + ((c as u64) << 12) + i, v);
+                        i += 1;
+                    }
+                }
+            }
+        });
+        // and a generic stream of leg pairs (full mantissas in all four words, exponent offset -3..3)
+        let n: u64 = if quick { 60_000 } else { 6_000_000 };
+        r.notes.push(format!("generic stream for hypot: {} leg pairs of a fixed Weyl sequence over exponents -400..399, leg-exponent offset -3..3", n));
+        r.par("generic stream: hypot", (n / 4096) as usize + 1, n, |c, l| {
+            for i in (c as u64 * 4096)..((c as u64 + 1) * 4096).min(n) {
+                let a = match tfref::alpha::generic_dd(i, 1301, -400 + 3, 399 - 3) {
+                    Some(a) => a,
+                    None => continue,
+                };
+                let ea = crate::grid::exp_of(a[0]);
+                let d = (i % 7) as i32 - 3;
+                if let Some(b) = tfref::alpha::generic_dd(i, 1302 + (i % 5), ea + d, ea + d) {
+                    let v = judge_hypot(a, b, Some(l));
+                    rec.record(l, (12u64 << 55) + i, v);
+                }
+            }
+        });
+    }
 }
